@@ -25,10 +25,10 @@ def run(ctx):
             # with a cycle through negation or an undefined predicate which error surfaces first may depend on order
             only=lambda p, j: j["valid"] and j["mustAnswer"] and not j["undefPreds"])
 
-    J, runs, cov = common.sem_check(ctx, P, variants, level="model_checking", post=post, write=False)
+    J, runs, cov = common.sem_check(ctx, P, variants, level="exploration", post=post, write=False)
     cov["permutations_per_program"] = k
     cov["relational_comparisons"] = ctx.cov.get("relational", 0)
-    ctx.write_evidence("model_checking", cov, assumptions=[
+    ctx.write_evidence("exploration", cov, assumptions=[
         "permutations keep every negated literal after the positive literals that bind its variables"])
 
 
